@@ -132,6 +132,9 @@ pub struct Oracles {
     /// C09: an injected storage error must come back as Error::Io carrying it
     #[serde(default)]
     pub io_errors: bool,
+    /// C14: keep the whole write log (payloads, flush epochs), flush points and untrack events
+    #[serde(default)]
+    pub crash_log: bool,
 }
 
 #[derive(Clone, Debug, Serialize, Deserialize)]
